@@ -163,6 +163,7 @@ func buildCorpus(c *Ctx, nGen int, withRepo, withStd bool) ([]corpusFn, error) {
 		prog, pkgs, err := loadSSA(repo, "./pkg/...", "./internal/...")
 		if err == nil {
 			corpus = append(corpus, allFunctions(prog, pkgs, "repo")...)
+			checkTypedMapRanges(c, repo, pkgs)
 		} else {
 			c.Skip("repo_corpus_unavailable")
 		}
